@@ -57,6 +57,7 @@ CONSTANTS
  FileSeq <- MCLayouts
  HduForms <- MCHduForms
  KeyForms <- MCKeyForms
+ HduVals <- MCHduVals
 INVARIANT CaseInScope
 INVARIANT ScalarAppliesToAll
 INVARIANT ListIsPositional
@@ -79,8 +80,9 @@ def mc_module(layouts_text, hforms=ALL_FORMS, kforms=ALL_FORMS, theorems=True, d
         ("MCLayouts", layouts_text),
         ("MCHduForms", tla.lit(set(hforms))),
         ("MCKeyForms", tla.lit(set(kforms))),
+        ("MCHduVals", "0..(MaxHdus - 1)"),
         "ASSUME EncodingInjective /\\ EncodingKeys" + (" /\\ EncodingDisjoint" if disjoint else ""),
-        "ASSUME JsonSerialize(IOEnv.OUT, [files |-> FileTable, nfiles |-> Len(FileSeq)])",
+        "ASSUME JsonSerialize(IOEnv.OUT, [files |-> FileTable, names |-> [p \\in DOMAIN FileSeq |-> NameClass(p)]])",
         'Emit == Done => PrintT(<<"R", ToJson([lay |-> lay, hs |-> hs, ks |-> ks, '
         'cli |-> [hdu |-> Tokens(hs), key |-> Tokens(ks)], '
         'exp |-> [n \\in 1..N |-> Observed(dout[n])], sky |-> [n \\in 1..N |-> Sky(dout[n])], '
@@ -96,12 +98,12 @@ def all_layouts(ctx):
     layout of up to 4 HDUs); the result is handed back to TLC as explicit text (a constant that is a set expression
     would be re-evaluated in every state)."""
     outp = os.path.join(ctx.scratch, "layouts.json")
-    defs = [("MCLayouts", '<< <<I({" "})>> >>'), ("MCForms", '{"none"}'),
+    defs = [("MCLayouts", '<< <<I({" "})>> >>'), ("MCForms", '{"none"}'), ("MCHduVals", "0..3"),
             "ASSUME GuessIsFirstImage(4)",
             "ASSUME JsonSerialize(IOEnv.OUT, [l2 |-> SetToSeq({f \\in AllLayouts(2) : HasImage(f)}), "
             "l3 |-> SetToSeq({f \\in AllLayouts(3) : HasImage(f)}), "
             "cubes |-> [f \\in 1..(Cardinality(CubeTypes) \\div 4) |-> [jj \\in 1..4 |-> SetToSeq(CubeTypes)[4 * (f - 1) + jj]]]])"]
-    cfg = ("SPECIFICATION Spec\nCONSTANTS\n MaxFiles = 1\n FileSeq <- MCLayouts\n HduForms <- MCForms\n KeyForms <- MCForms\n"
+    cfg = ("SPECIFICATION Spec\nCONSTANTS\n MaxFiles = 1\n FileSeq <- MCLayouts\n HduForms <- MCForms\n KeyForms <- MCForms\n HduVals <- MCHduVals\n"
            "CHECK_DEADLOCK FALSE\n")
     ctx.tlc("MCLayouts", extra={"MCLayouts.tla": tla.module("MCLayouts", ["Collection", "Json", "IOUtils", "SequencesExt"], defs)},
             cfg_text=cfg, env={"OUT": outp}, workers=1, timeout=600, count=False)
@@ -121,6 +123,7 @@ CONSTANTS
  FileSeq <- MCLayouts
  HduForms <- MCHduForms
  KeyForms <- MCKeyForms
+ HduVals <- MCHduVals
 INVARIANT LaterEnumerationIsFresh
 INVARIANT NoAliasing
 INVARIANT AlwaysAgree
@@ -135,7 +138,7 @@ def histories(ctx):
     edits of the yielded objects in between; TLC checks that every enumeration yields what a fresh collection would and
     emits the operation logs.  Replayed: the logs whose first pass is followed by an edit."""
     defs = [("MCLayouts", '<< <<E, I({" ", "A"}), I({" "})>>, <<I({" ", "B"})>> >>'),
-            ("MCHduForms", '{"none", "each"}'), ("MCKeyForms", '{"none", "one"}'),
+            ("MCHduForms", '{"none", "each"}'), ("MCKeyForms", '{"none", "one"}'), ("MCHduVals", "0..3"),
             'Emit == HDone => PrintT(<<"H", ToJson([log |-> log])>>)']
     mod = tla.module("MCHistory", ["CollectionHistory", "Json"], defs)
     r = ctx.tlc("MCHistory", extra={"MCHistory.tla": mod}, cfg_text=HCFG % "FALSE", workers=2, timeout=600)
@@ -152,6 +155,54 @@ def histories(ctx):
             ctx.machinery("the memoising design (Memoise = TRUE) was not refuted by TLC: %r" % (r2.violated,))
         ctx.note("memoising_design_refuted_by", r2.violated)
     return hists
+
+
+RCFG = """SPECIFICATION RSpec
+CONSTANTS
+ MaxFiles = 2
+ WriteBack = %s
+ FileSeq <- MCLayouts
+ HduForms <- MCHduForms
+ KeyForms <- MCKeyForms
+ HduVals <- MCHduVals
+INVARIANT ArgumentsUntouched
+INVARIANT FirstIsWhatWasAsked
+INVARIANT SecondHasNoMemory
+INVARIANT Emit
+CHECK_DEADLOCK FALSE
+"""
+
+
+def tlc_reuse(ctx):
+    """spec/CollectionReuse.tla: pairs of collections (same length, other files: 1, 3 and 4 HDUs) built from the SAME
+    argument objects, HDU indices written from the front or from the end (-4..3).  TLC checks ArgumentsUntouched /
+    FirstIsWhatWasAsked / SecondHasNoMemory and emits what each of the two collections must yield."""
+    outp = os.path.join(ctx.scratch, "files-reuse.json")
+    defs = [("MCLayouts", '<< <<I({" ", "A"})>>, <<E, I({" ", "A"}), I({" "})>>, <<E, T, I({" "}), I({" ", "A"})>> >>'),
+            ("MCHduForms", '{"none", "one", "each"}'), ("MCKeyForms", '{"none", "each"}'), ("MCHduVals", "(-MaxHdus)..(MaxHdus - 1)"),
+            "ASSUME JsonSerialize(IOEnv.OUT, [files |-> FileTable, names |-> [p \\in DOMAIN FileSeq |-> NameClass(p)]])",
+            'Emit == RDone => PrintT(<<"P", ToJson([lay |-> lay, lay2 |-> lay2, hs |-> hs, ks |-> ks, '
+            'cli |-> [hdu |-> Tokens(hs), key |-> Tokens(ks)], differs |-> Differs, '
+            'expA |-> [n \\in DOMAIN outA |-> Observed(outA[n])], expB |-> [n \\in DOMAIN outB |-> Observed(outB[n])]])>>)']
+    mod = tla.module("MCReuse", ["CollectionReuse", "Json", "IOUtils"], defs)
+    r = ctx.tlc("MCReuse", extra={"MCReuse.tla": mod}, cfg_text=RCFG % "FALSE", env={"OUT": outp}, workers=2, timeout=900)
+    recs = r.json_lines("P")
+    if not recs or not os.path.exists(outp):
+        ctx.machinery("TLC emitted no reuse cases")
+    if not ctx.quick:
+        r2 = ctx.tlc("MCReuse", extra={"MCReuse.tla": mod}, cfg_text=RCFG % "TRUE", env={"OUT": outp + ".refuted"}, workers=2, timeout=900,
+                     expect_violation=True, count=False)
+        if r2.violated not in ("ArgumentsUntouched", "SecondHasNoMemory"):
+            ctx.machinery("the write-back design (WriteBack = TRUE) was not refuted by TLC: %r" % (r2.violated,))
+        ctx.note("write_back_design_refuted_by", r2.violated)
+    table = json.load(open(outp))
+    root = ctx.mkdtemp("fits-reuse")
+    with open(os.path.join(root, "names.json"), "w") as f:
+        json.dump([NAME_TEMPLATES[c] % (p_ + 1) for p_, c in enumerate(table["names"])], f)
+    for p, hdus in enumerate(table["files"], start=1):
+        write_fits(file_path(root, p), hdus)
+    ctx.note("cases_reuse", len(recs))
+    return root, sorted(recs, key=lambda r_: json.dumps(r_, sort_keys=True))
 
 
 # ---------------------------------------------------------------------------------------------------
@@ -210,21 +261,44 @@ def write_fits(path, hdus):
     fits.HDUList(out).writeto(path, overwrite=True)
 
 
+# how each of TLC's name classes is spelled on disk: what a file system allows in a file name
+NAME_TEMPLATES = {"plain": "F%d.fits", "brackets": "F%d_[OIII].fits", "wildcards": "F%d*?.fits", "dashdots": "-F%d..x.fits",
+                  "nonascii": "F%d_\u00e9\u2713.fits", "spaces": "F%d b .fits"}
+_NAMES = {}
+
+
+def file_name(root, p):
+    if root not in _NAMES:
+        _NAMES[root] = json.load(open(os.path.join(root, "names.json")))
+    return _NAMES[root][p - 1]
+
+
 def file_path(root, p):
-    return os.path.join(root, "F%d.fits" % p)
+    return os.path.join(root, file_name(root, p))
 
 
-def input_paths(root, exp, respell):
-    """The user's path list: one path per list position; a physical file named at several positions is the same path
-    (or, when `respell`, another spelling of it: dir/./F.fits, dir/././F.fits)."""
+PATH_FORMS = ("absolute", "respelled", "relative", "pathlib")
+
+
+def input_paths(root, exp, form="absolute", for_argv=False):
+    """The user's path list: one path per list position; a physical file named at several positions is the same path.
+    absolute: dir/NAME; respelled: a repeat is another spelling of the same file (dir/./NAME, dir/././NAME);
+    relative: NAME relative to the working directory (the worker is there); pathlib: pathlib.Path objects (Python API)."""
+    import pathlib
     paths, seen = [], {}
     for e in exp:
         k = seen.get(e["file"], 0)
         seen[e["file"]] = k + 1
-        if respell and k:
-            paths.append(os.path.join(root, *([os.curdir] * k + ["F%d.fits" % e["file"]])))
+        name = file_name(root, e["file"])
+        if form == "respelled" and k:
+            paths.append(os.path.join(root, *([os.curdir] * k + [name])))
+        elif form == "relative":
+            # on a command line a name that starts with a dash is written ./-name
+            paths.append(os.path.join(os.curdir, name) if (for_argv and name.startswith("-")) else name)
+        elif form == "pathlib" and not for_argv:
+            paths.append(pathlib.Path(root) / name)
         else:
-            paths.append(file_path(root, e["file"]))
+            paths.append(os.path.join(root, name))
     return paths
 
 
@@ -249,16 +323,26 @@ class _Recorder(object):
         return self
 
 
-def _kwargs(hs, ks):
+CONTAINERS = ("list", "tuple", "numpy")
+
+
+def _kwargs(hs, ks, container="list"):
+    """The selection as Python objects: per-file entries in a list, in a tuple, or as NumPy integers in a list."""
     kw = {}
     if hs["form"] == "one":
         kw["hdu_index"] = int(hs["v"][0])
     elif hs["form"] == "each":
-        kw["hdu_index"] = [int(x) for x in hs["v"]]
+        if container == "numpy":
+            import numpy as np
+            kw["hdu_index"] = [np.int64(x) for x in hs["v"]]
+        else:
+            kw["hdu_index"] = [int(x) for x in hs["v"]]
+            if container == "tuple":
+                kw["hdu_index"] = tuple(kw["hdu_index"])
     if ks["form"] == "one":
         kw["wcs_key"] = ks["v"][0]
     elif ks["form"] == "each":
-        kw["wcs_key"] = list(ks["v"])
+        kw["wcs_key"] = tuple(ks["v"]) if container == "tuple" else list(ks["v"])
     return kw
 
 
@@ -266,24 +350,37 @@ def _cli_opts(cli, hs, ks):
     """The option strings: TLC gives the tokens, the user joins them with commas."""
     opts = []
     if hs["form"] != "none":
-        opts += ["--hdu-index", ",".join(str(t) for t in cli["hdu"])]
+        text = ",".join(str(t) for t in cli["hdu"])
+        # a value that starts with a minus sign has to be attached to its option
+        opts += ["--hdu-index=" + text] if text.startswith("-") else ["--hdu-index", text]
     if ks["form"] != "none":
         opts += ["--wcs-key", ",".join(cli["key"])]
     return opts
 
 
-def make_collection(entry, paths, hs, ks, cli, flip):
-    """The ImageCollection the entry point builds for this selection."""
+def make_collection(entry, paths, hs, ks, cli, flip, kw=None, apaths=None, loader=None):
+    """The ImageCollection the entry point builds for this selection.  paths: what the Python API is given; apaths: the
+    same inputs as command-line words; kw: the caller's argument objects (default: built here from TLC's selection);
+    loader: the caller's CollectionLoader instance (entry "loader")."""
     import contextlib
     import io
     import toasty
     from toasty import collection as C
     from toasty import fits_tiler
+    kw = _kwargs(hs, ks) if kw is None else kw
+    apaths = [str(p_) for p_ in paths] if apaths is None else apaths
+    scratch = os.path.dirname(os.path.abspath(str(paths[0])))
     if entry == "load":
-        inp = paths[0] if (len(paths) == 1 and flip) else (tuple(paths) if flip else list(paths))
-        return C.load(inp, **_kwargs(hs, ks))
+        inp = paths[0] if (len(paths) == 1 and flip and isinstance(paths[0], str)) else (tuple(paths) if flip else list(paths))
+        return C.load(inp, **kw)
     if entry == "class":
-        return C.SimpleFitsCollection(list(paths), **_kwargs(hs, ks))
+        return C.SimpleFitsCollection(list(paths), **kw)
+    if entry == "loader":
+        if loader is None:
+            loader = C.CollectionLoader()
+            for k_, v_ in kw.items():
+                setattr(loader, k_, v_)
+        return loader.load_paths(paths)
     if entry == "cli-multi-tan":
         # `toasty tile-multi-tan`: the collection the command hands to its tile processor
         from toasty import cli as tcli
@@ -293,8 +390,8 @@ def make_collection(entry, paths, hs, ks, cli, flip):
         _Recorder.last = None
         try:
             with contextlib.redirect_stdout(io.StringIO()):
-                tcli.entrypoint(["tile-multi-tan", "--parallelism", "1", "--outdir", os.path.join(os.path.dirname(paths[0]), "never-written")]
-                                + _cli_opts(cli, hs, ks) + list(paths))
+                tcli.entrypoint(["tile-multi-tan", "--parallelism", "1", "--outdir", os.path.join(scratch, "never-written")]
+                                + _cli_opts(cli, hs, ks) + list(apaths))
         except _Stop:
             pass
         finally:
@@ -311,11 +408,10 @@ def make_collection(entry, paths, hs, ks, cli, flip):
         if entry == "cli":
             from toasty import cli as tcli
             with contextlib.redirect_stdout(io.StringIO()):
-                tcli.entrypoint(["view", "--tile-only"] + _cli_opts(cli, hs, ks) + list(paths))
+                tcli.entrypoint(["view", "--tile-only"] + _cli_opts(cli, hs, ks) + list(apaths))
         elif entry == "tile_fits":
-            inp = paths[0] if (len(paths) == 1 and flip) else list(paths)
-            toasty.tile_fits(inp, out_dir=os.path.join(os.path.dirname(paths[0]), "never-written"), parallel=1,
-                             **_kwargs(hs, ks))
+            inp = paths[0] if (len(paths) == 1 and flip and isinstance(paths[0], str)) else list(paths)
+            toasty.tile_fits(inp, out_dir=os.path.join(scratch, "never-written"), parallel=1, **kw)
         else:
             raise ValueError(entry)
     finally:
@@ -431,11 +527,11 @@ def run_history(coll, hist, use_lib):
     return passes, simple, notes
 
 
-def _try(entry, paths, hs, ks, cli, flip, hist=("d", "i"), use_lib=False):
+def _try(entry, paths, hs, ks, cli, flip, hist=("d", "i"), use_lib=False, **mk):
     import warnings
     with warnings.catch_warnings():
         warnings.simplefilter("ignore")
-        coll = make_collection(entry, paths, hs, ks, cli, flip)
+        coll = make_collection(entry, paths, hs, ks, cli, flip, **mk)
         return run_history(coll, hist, use_lib)
 
 
@@ -461,89 +557,159 @@ def _judge(items, what, exp, paths, hform, kform):
             out.append(("V", "key-%s:wrong-wcs" % kform,
                         "%s()[%d] carries the WCS with CRVAL %s CDELT %s; the selected key %r of HDU %d has CRVAL %s CDELT %s/1000"
                         % (what, k, o["crval"], o["cdelt"], e["key"], e["hdu"], e["crval"], e["cdelt"])))
-        if o["id"] != paths[k]:
+        if str(o["id"]) != paths[k]:
             out.append(("D", "collection_id", "%s()[%d].collection_id is %r, input path is %r" % (what, k, o["id"], paths[k])))
     return out
+
+
+def _export_matches(simple, given, exp):
+    """export_simple() designates, for every input path, the selected HDU (an index written from the end counts as the
+    HDU it designates: TLC's Resolve)."""
+    if len(simple) != len(exp):
+        return False
+    for (p, h), g, e in zip(simple, given, exp):
+        h = int(h)
+        if p != g or (h if h >= 0 else h + e["nhdu"]) != e["hdu"]:
+            return False
+    return True
+
+
+def _replay(root, idx, rec, exp, entry, hist, use_lib, res, container="list", kw=None, loader=None, tag=None):
+    """One (case, entry point): a history on one collection object against TLC's expectation `exp`.  -> True if quiet"""
+    hs, ks, cli = rec["hs"], rec["ks"], rec["cli"]
+    flip = (idx // 4) % 2 == 1
+    form = PATH_FORMS[(idx // 8) % 4]
+    paths = input_paths(root, exp, form)
+    apaths = input_paths(root, exp, form, for_argv=True)
+    given = [str(p_) for p_ in (apaths if entry.startswith("cli") else paths)]
+    hform, kform = hs["form"], ks["form"]
+    names = {"d": "descriptions", "i": "images"}
+    mk = {"apaths": apaths, "loader": loader, "kw": kw if kw is not None else _kwargs(hs, ks, container)}
+    case = {"entry": entry, "layouts": [e["file"] for e in exp], "hdu_index": hs, "wcs_key": ks, "expected": exp, "paths": given,
+            "path_form": form, "container": container,
+            "history": [("_is_multi_tan" if (use_lib and n == 1) else op) for n, op in enumerate(hist)]}
+    if entry.startswith("cli"):
+        case["argv"] = _cli_opts(cli, hs, ks)
+
+    def bad(sev, key, msg):
+        res.append((sev, "%s:%s" % (entry, (tag + ":" + key) if tag else key), msg, case))
+
+    def fresh_mk():
+        return {"apaths": apaths, "kw": _kwargs(hs, ks, container)}
+    try:
+        passes, simple, notes = _try(entry, paths, hs, ks, cli, flip, hist, use_lib, **mk)
+    except _NoHook as e:
+        bad("D", "no-hook", str(e))
+        return True
+    except BaseException as e:  # noqa - SystemExit from the CLI's die() included
+        # which part of the selection does the failure belong to?
+        cls = "hdu-" + hform
+        if kform != "none":
+            try:
+                _try(entry, paths, hs, {"form": "none", "v": []}, dict(cli, key=[]), flip, apaths=apaths)
+                cls = "key-" + kform
+            except BaseException:  # noqa
+                pass
+        bad("V", cls + ":raises", "an in-scope selection (hdu_index %s, wcs_key %s, %d file(s), %s paths, entries in a %s) fails with %s: %s"
+            % (_show(hs), _show(ks), len(paths), form, container, type(e).__name__, str(e)[:160]))
+        return False
+    for note in notes:
+        bad("D", "lib-consumer", note)
+    failed = False
+    for pn, (gen, items) in enumerate(passes):
+        found = _judge(items, names[gen], exp, given, hform, kform)
+        if pn > 0 and any(f[0] == "V" for f in found):
+            # does the outcome depend on the history?  the same enumeration on a fresh collection object decides
+            try:
+                fresh = _try(entry, paths, hs, ks, cli, flip, [gen], **fresh_mk())[0][0][1]
+                fresh_ok = not any(f[0] == "V" for f in _judge(fresh, names[gen], exp, given, hform, kform))
+            except BaseException:  # noqa
+                fresh_ok = False
+            if fresh_ok:
+                first = [f for f in found if f[0] == "V"][0]
+                found = [("V", "later-enumeration:" + names[gen],
+                          "after the history %s on one collection object, %s() no longer yields what a fresh collection yields: %s"
+                          % (case["history"], names[gen], first[2]))]
+        for sev, key, msg in found:
+            failed = failed or sev == "V"
+            bad(sev, key, msg)
+        if failed:
+            return False
+    lastd = [it for g, it in passes if g == "d"]
+    lasti = [it for g, it in passes if g == "i"]
+    if lastd and lasti:
+        for k, (d, im) in enumerate(zip(lastd[-1], lasti[-1])):
+            if any(d[f] != im[f] for f in ("shape", "crval", "crpix", "cdelt")):
+                failed = True
+                bad("V", "descriptions-vs-images", "item %d: description has shape %s crval %s crpix %s cdelt %s, image has shape %s crval %s crpix %s cdelt %s"
+                    % (k, d["shape"], d["crval"], d["crpix"], d["cdelt"], im["shape"], im["crval"], im["crpix"], im["cdelt"]))
+    if not _export_matches(simple, given, exp):
+        failed = True
+        bad("V", "export_simple", "export_simple() = %s, selected %s" % ([(os.path.basename(p), h) for p, h in simple],
+                                                                          [(os.path.basename(g), e["hdu"]) for g, e in zip(given, exp)]))
+    return not failed
 
 
 def replay_case(args):
     """-> (findings, nontrivial, repeated) ; a finding is (severity, key, message, case): 'V' property monitor, 'D' drift."""
     root, idx, rec, entries, hists = args
     repo.setup()
-    hs, ks, cli, exp = rec["hs"], rec["ks"], rec["cli"], rec["exp"]
-    flip, respell = (idx // 4) % 2 == 1, (idx // 8) % 2 == 1
-    paths = input_paths(root, exp, respell)
-    hform, kform = hs["form"], ks["form"]
-    names = {"d": "descriptions", "i": "images"}
+    os.chdir(root)
+    exp = rec["exp"]
     res = []
     for en, entry in enumerate(entries):
         hist = hists[(idx + en) % len(hists)]
         use_lib = hist[:2] == ["d", "parity"] and (idx // len(hists)) % 2 == 0
-        case = {"entry": entry, "layouts": rec["lay"], "hdu_index": hs, "wcs_key": ks, "expected": exp,
-                "paths": [os.path.relpath(p_, root) for p_ in paths],
-                "history": [("_is_multi_tan" if (use_lib and n == 1) else op) for n, op in enumerate(hist)]}
-        if entry == "cli":
-            case["argv"] = _cli_opts(cli, hs, ks)
-
-        def bad(sev, key, msg, case=case, entry=entry):
-            res.append((sev, "%s:%s" % (entry, key), msg, case))
-        try:
-            passes, simple, notes = _try(entry, paths, hs, ks, cli, flip, hist, use_lib)
-        except _NoHook as e:
-            bad("D", "no-hook", str(e))
-            continue
-        except BaseException as e:  # noqa - SystemExit from the CLI's die() included
-            # which part of the selection does the failure belong to?
-            cls = "hdu-" + hform
-            if kform != "none":
-                try:
-                    _try(entry, paths, hs, {"form": "none", "v": []}, dict(cli, key=[]), flip)
-                    cls = "key-" + kform
-                except BaseException:  # noqa
-                    pass
-            bad("V", cls + ":raises", "an in-scope selection (hdu_index %s, wcs_key %s, %d file(s)) fails with %s: %s"
-                % (_show(hs), _show(ks), len(paths), type(e).__name__, str(e)[:160]))
-            continue
-        for note in notes:
-            bad("D", "lib-consumer", note)
-        failed = False
-        for pn, (gen, items) in enumerate(passes):
-            found = _judge(items, names[gen], exp, paths, hform, kform)
-            if pn > 0 and any(f[0] == "V" for f in found):
-                # does the outcome depend on the history?  the same enumeration on a fresh collection object decides
-                try:
-                    fresh = _try(entry, paths, hs, ks, cli, flip, [gen])[0][0][1]
-                    fresh_ok = not any(f[0] == "V" for f in _judge(fresh, names[gen], exp, paths, hform, kform))
-                except BaseException:  # noqa
-                    fresh_ok = False
-                if fresh_ok:
-                    first = [f for f in found if f[0] == "V"][0]
-                    found = [("V", "later-enumeration:" + names[gen],
-                              "after the history %s on one collection object, %s() no longer yields what a fresh collection yields: %s"
-                              % (case["history"], names[gen], first[2]))]
-            for sev, key, msg in found:
-                failed = failed or sev == "V"
-                bad(sev, key, msg)
-            if failed:
-                break
-        if failed:
-            continue
-        lastd = [it for g, it in passes if g == "d"]
-        lasti = [it for g, it in passes if g == "i"]
-        if lastd and lasti:
-            for k, (d, im) in enumerate(zip(lastd[-1], lasti[-1])):
-                if any(d[f] != im[f] for f in ("shape", "crval", "crpix", "cdelt")):
-                    bad("V", "descriptions-vs-images", "item %d: description has shape %s crval %s crpix %s cdelt %s, image has shape %s crval %s crpix %s cdelt %s"
-                        % (k, d["shape"], d["crval"], d["crpix"], d["cdelt"], im["shape"], im["crval"], im["crpix"], im["cdelt"]))
-        want = [(paths[k], e["hdu"]) for k, e in enumerate(exp)]
-        if [(p, int(h)) for p, h in simple] != want:
-            bad("V", "export_simple", "export_simple() = %s, selected %s" % ([(os.path.basename(p), h) for p, h in simple],
-                                                                              [(os.path.basename(p), h) for p, h in want]))
+        _replay(root, idx, rec, exp, entry, hist, use_lib, res, container=CONTAINERS[(idx // 3 + en) % 3])
     nontrivial = any(e["hdu"] != 0 or e["key"] != " " for e in exp)
     # a physical file named at several positions with entries that differ between those positions
     repeated = any(a["file"] == b["file"] and (a["hdu"], a["key"]) != (b["hdu"], b["key"])
                    for x, a in enumerate(exp) for b in exp[x + 1:])
     return res, nontrivial, repeated
+
+
+REUSE_ENTRIES = ("load", "class", "loader", "tile_fits", "cli", "cli-multi-tan")
+
+
+def reuse_case(args):
+    """The caller's argument objects (the hdu_index / wcs_key lists, or one CollectionLoader) used for a first collection
+    (a whole history on it) and then for a SECOND collection over other files: TLC says what each must yield."""
+    root, idx, rec, entry, hists = args
+    repo.setup()
+    os.chdir(root)
+    import copy
+    import warnings
+    hs, ks, cli = rec["hs"], rec["ks"], rec["cli"]
+    container = CONTAINERS[idx % 3]
+    res = []
+    kw = _kwargs(hs, ks, container)
+    before = (repr(kw), copy.deepcopy(kw))
+    loader = None
+    if entry == "loader":
+        from toasty import collection as C
+        loader = C.CollectionLoader()
+        for k_, v_ in kw.items():
+            setattr(loader, k_, v_)
+    hist = hists[idx % len(hists)]
+    ok = _replay(root, idx, rec, rec["expA"], entry, hist, False, res, container=container, kw=kw, loader=loader)
+    if not ok:
+        return res, True, False
+    # the second collection, from the same argument objects: both enumerations and export_simple, then the same from
+    # argument objects of its own when something is off (is it the reuse, or the selection itself?)
+    n0 = len(res)
+    ok = _replay(root, idx, rec, rec["expB"], entry, ["d", "i"], False, res, container=container, kw=kw, loader=loader)
+    if not ok:
+        probe = []
+        if _replay(root, idx, rec, rec["expB"], entry, ["d", "i"], False, probe, container=container):
+            first = [f for f in res[n0:] if f[0] == "V"][0]
+            case = dict(first[3], first_collection=[e["file"] for e in rec["expA"]], second_collection=[e["file"] for e in rec["expB"]])
+            res[n0:] = [("V", "%s:second-collection" % entry,
+                         "the same %s passed for a second collection over other files (after files %s, now files %s) no longer selects what it says: %s"
+                         % ("CollectionLoader" if loader is not None else "hdu_index / wcs_key objects", case["first_collection"], case["second_collection"], first[2]), case)]
+    if repr(kw) != before[0]:
+        res.append(("D", "%s:arguments-modified" % entry, "the caller's arguments were %s before the call and are %s after it" % (before[0], repr(kw)), {"layouts": rec["lay"], "hdu_index": hs, "wcs_key": ks}))
+    differs = any(a["hdu"] != b["hdu"] for a, b in zip(rec["expA"], rec["expB"]))
+    return res, True, differs
 
 
 def _show(spec):
@@ -631,7 +797,7 @@ def e2e_case(args):
     import toasty
     os.environ["SLURM_NPROCS"] = "1"      # toasty's own knob: the cascade inside tile_fits takes no `parallel` argument
     hs, ks, cli, exp = rec["hs"], rec["ks"], rec["cli"], rec["exp"]
-    paths = input_paths(root, exp, False)
+    paths = input_paths(root, exp)
     out = os.path.join(root, "e2e-%s-%d" % (mode, idx))
     case = {"entry": mode, "layouts": rec["lay"], "hdu_index": hs, "wcs_key": ks, "expected": exp, "sky": rec["sky"], "tiling": rec["tiling"]}
     res = []
@@ -695,6 +861,8 @@ def tlc_cases(ctx, name, layouts_text, maxfiles, hforms=ALL_FORMS, kforms=ALL_FO
     table = json.load(open(outp))
     root = ctx.mkdtemp("fits-" + name)
     files = table["files"]
+    with open(os.path.join(root, "names.json"), "w") as f:
+        json.dump([NAME_TEMPLATES[c] % (p_ + 1) for p_, c in enumerate(table["names"])], f)
     for p, hdus in enumerate(files, start=1):
         write_fits(file_path(root, p), hdus)
     ctx.note("cases_" + name, len(recs))
@@ -714,11 +882,12 @@ def run(ctx):
                 "an HDU other than 0 or a key other than ' '")
     # the three model-checking runs every tier needs are independent: run them side by side (2 + 3 + 2 TLC workers)
     import concurrent.futures as cf
-    with cf.ThreadPoolExecutor(3) as tp:
+    with cf.ThreadPoolExecutor(4) as tp:
         f_h = tp.submit(histories, ctx)
         f_5 = tp.submit(tlc_cases, ctx, "five3", LAYOUTS_5, 3, workers=3)
         f_c = tp.submit(tlc_cases, ctx, "cubes1", CUBES_3, 1, theorems=False, workers=2)
-        hists, five3, cubes1 = f_h.result(), f_5.result(), f_c.result()
+        f_r = tp.submit(tlc_reuse, ctx)
+        hists, five3, cubes1, (rroot, rrecs) = f_h.result(), f_5.result(), f_c.result(), f_r.result()
     cmds = cli_selection_commands()
     ctx.note("cli_subcommands_with_selection_options", cmds)
     for cmd in sorted(cmds):
@@ -802,8 +971,17 @@ def run(ctx):
                 e2e.append((r_, len(e2e), rec, "tile_fits-e2e"))
                 if n == 2:
                     e2e.append((r_, len(e2e), rec, "view-e2e" if pattern == (-1,) else "tiler-history"))
+    # the caller's argument objects reused for a second collection (quick: those pairs where an entry designates different
+    # HDUs in the two collections, every 3rd; thorough: every pair)
+    rjobs = []
+    for n_, rec in enumerate(rrecs):
+        if ctx.quick and not (rec["differs"] and n_ % 6 == 0):
+            continue
+        ents = [e for e in REUSE_ENTRIES if e != "cli-multi-tan" or multi_tan_applies(rec)]
+        rjobs.append((rroot, len(rjobs), rec, ents[len(rjobs) % len(ents)], hists))
     with mp.Pool(8) as pool:
         results = pool.map(replay_case, jobs, chunksize=32)
+        rresults = pool.map(reuse_case, rjobs, chunksize=16)
         e2e_results = pool.map(e2e_case, e2e, chunksize=1)
     nrep = 0
     for (res, nontrivial, repeated), (r_, idx, rec, ents, _h), name in zip(results, jobs, names):
@@ -816,6 +994,15 @@ def run(ctx):
     for res in e2e_results:
         ctx.count()
         _report(ctx, res)
+    nre = 0
+    for (res, _nt, differs), (_r, _i, rec, ent, _h) in zip(rresults, rjobs):
+        ctx.count(2)
+        ctx.trace_ok()
+        nre += 1 if differs else 0
+        ctx.distinct(("reuse", tuple(rec["lay"]), tuple(rec["lay2"]), _show(rec["hs"]), _show(rec["ks"]), ent))
+        _report(ctx, res)
+    ctx.note("reuse_pairs_replayed", len(rjobs))
+    ctx.note("reuse_pairs_where_an_entry_designates_different_hdus", nre)
     ctx.note("end_to_end_tilings", len(e2e))
     ctx.note("replayed_cases_naming_one_file_twice_with_different_entries", nrep)
     ctx.note("entry_points", list(ENTRIES) + ["cli-multi-tan", "tile_fits-e2e", "tile-multi-tan-e2e", "tiler-history", "view-e2e"])
@@ -829,6 +1016,11 @@ def run(ctx):
     ctx.assume("tilings of inputs with different pixel scales are resampled by the library (the mosaic frame may be rotated): judged "
                "are the set of pixel values shown (exactly the selected HDUs' values), each value's area (within 40%) and the "
                "distance between the inputs' centroids (within 2 pixels; the encoding keeps inputs >= 8 pixels apart)")
+    ctx.assume("HDU indices may be written from the end (negative, as Python and astropy read them); export_simple() may report "
+               "such an index as written or resolved; per-file entries are given in a list, a tuple or as NumPy integers; a NumPy "
+               "integer as the SCALAR hdu_index is rejected by the unchanged code (documented type: int) and is not judged")
+    ctx.assume("file names are literal: brackets, * and ?, spaces, leading dashes and double dots, non-ASCII; paths absolute, "
+               "respelled, relative to the working directory or pathlib.Path objects (Python API)")
     ctx.assume("in scope: every selected HDU exists, holds a 2-D image and carries the selected WCS key; per-file lists have one "
                "entry per input path (what happens for tables, missing keys, short lists or files without any image is not judged)")
     ctx.assume("an HDU 'holds image data' when it is a 2-D image array (empty HDUs and binary tables do not); 1-D arrays, cubes, "
